@@ -1854,11 +1854,21 @@ impl Exec {
         let bc: Vec<Vec<Term>> = bio.complete().collect();
         let bs: Vec<Vec<Term>> = bio.stable().collect();
         // the single-formula rewriting variants under this presentation (own objects)
-        let bio2 = BdAdf::from_parser_with_stm_rewrite(parser);
-        let brew = bio2.stable_bdd_representation();
-        let brew0 = bio.stable_bdd_representation();
-        let mut adf2 = Adf::from_parser(parser);
-        let nrew = adf2.stable_bdd_representation(&bio2);
+        // beyond 64 statements the single-formula rewriting (one conjunction of all equivalences statement <->
+        // condition) can need minutes and gigabytes: a resource matter, not a statement of C10 - skipped there,
+        // so that a slow run is not mistaken for a hang (DESIGN 12.6)
+        let wide = n > 64;
+        let (brew, brew0, nrew): (Vec<Vec<Term>>, Vec<Vec<Term>>, Vec<Vec<Term>>) = if wide {
+            (Vec::new(), Vec::new(), Vec::new())
+        } else {
+            let bio2 = BdAdf::from_parser_with_stm_rewrite(parser);
+            let brew = bio2.stable_bdd_representation();
+            let brew0 = bio.stable_bdd_representation();
+            let mut adf2 = Adf::from_parser(parser);
+            let nrew = adf2.stable_bdd_representation(&bio2);
+            (brew, brew0, nrew)
+        };
+        let rw = |vs: &[Vec<Term>]| -> String { if wide { "wide".to_string() } else { set(vs) } };
         let mut adf3 = bio.hybrid_step();
         let hpre: Vec<Vec<Term>> = adf3.stable_with_prefilter().collect();
         let hex = |s: &str| s.bytes().map(|b| format!("{b:02x}")).collect::<String>();
@@ -1871,7 +1881,7 @@ impl Exec {
             format!("= {} ; {} ; {} ; {} ; {}", ac, vec_s(&g), vecs_s(&c), vecs_s(&st), vecs_s(&tv)),
             format!(
                 "~ grounded={} complete={} stable={} twoval={} biogrounded={} biocomplete={} biostable={} biorew={} biorew2={} natrew={} hybpre={}",
-                back(&g), set(&c), set(&st), set(&tv), back(&bg), set(&bc), set(&bs), set(&brew0), set(&brew), set(&nrew), set(&hpre)
+                back(&g), set(&c), set(&st), set(&tv), back(&bg), set(&bc), set(&bs), rw(&brew0), rw(&brew), rw(&nrew), set(&hpre)
             ),
             format!(
                 "ordercheck {sort} {perm_s} {} {order_s}",
